@@ -26,6 +26,15 @@ CHECKS = {
         "Trusted: CPython refcount semantics for weakref callbacks; bound = depth 4/5, <= 3/4 live connections, recursion depth 1.",
         "DESIGN.md §4 C14",
     ),
+    "C18": (
+        MC,
+        "bounded-exhaustive enumeration of the complete finite colour-description domain at every depth against independent xterm tables and a nearest-entry reference",
+        "Every colour description (names, h0..h255, #000..#fff, g0..g100, g#00..g#ff), every style subset/order, a #rrggbb lattice, all short "
+        "malformed strings and all colour pairs are constructed at depths 1/16/88/256/2^24 on the real AttrSpec; parse result, round trip, "
+        "hash, RGB, minimal depth and error type are judged against tables written independently from xterm's sources.",
+        "Trusted: the reference xterm tables in mc/checks/c18.py; #rrggbb is a lattice (9^3 quick / 33^3 thorough + palette steps), not all 2^24 values.",
+        "DESIGN.md §4 C18",
+    ),
 }
 
 PENDING_REASON = "check not built yet in this round (see DESIGN.md Appendix B build order); no claim is made"
